@@ -247,6 +247,13 @@ def lattice(extra_floats=()):
     add("tuple:(PlainSub(),2)", "tuple-obj", (PlainSub(), 2))
     add("tuple:(None,1)b", "tuple-obj", (None, 1))
     add("tuple:(object(),1)", "tuple-obj", (object(), 1))
+    # tuples whose order relation flips under numeric conversion
+    add("tuple:('10','9')", "tuple-convertible", ("10", "9"))
+    add("tuple:('9','10')", "tuple-convertible", ("9", "10"))
+    add("tuple:(-0.9,0.9)", "tuple-convertible", (-0.9, 0.9))
+    add("tuple:(0.9,2.2)", "tuple-convertible", (0.9, 2.2))
+    add("tuple:('2',3)", "tuple-convertible", ("2", 3))
+    add("tuple:(3,'2')", "tuple-convertible", (3, "2"))
     add("dict:{'a':Plain()}", "dict-obj", {"a": Plain()})
     add("dict:{'a':None}", "dict-obj", {"a": None})
     add("list:[(Plain(),1)]", "list-obj", [(Plain(), 1)])
